@@ -300,6 +300,8 @@ class Rule(MethodMeek):
                 #  D.6. calculate total surplus
                 #
                 E.surplus = sum([c.vote-E.quota for c in C.elected()], V0)
+                if E.surplus < V0:  # possible due to precision limits (as in meek-prf): elected votes fall short of a quota
+                    E.surplus = V0
 
                 #  D.7. test iteration complete
                 #
